@@ -4,6 +4,7 @@ import (
 	"fmt"
 	"math/rand"
 	"os"
+	"path"
 	"path/filepath"
 	"strings"
 
@@ -325,7 +326,14 @@ func c16run(c *fw.Ctx, idx int) {
 			hist = append(hist, c16op{Op: "GetTemplate", Arg: name})
 			_, wasRemembered := m.remembered[name]
 			want, ok := m.lookup(name, true)
-			t, err, pan := jx.Get(set, name)
+			asked := name
+			if r.Intn(4) == 0 {
+				// the same template under another spelling of its absolute name: one name, one remembered template
+				asked = []string{"/" + name, "/." + name, "/zz/.." + name, "/" + strings.Replace(name[1:], "/", "//", 1), path.Dir(name) + "/./" + path.Base(name)}[r.Intn(5)]
+				hist = append(hist, c16op{Op: "…spelt", Arg: asked})
+				c.Count("lookups_under_unclean_spellings", 1)
+			}
+			t, err, pan := jx.Get(set, asked)
 			c.Eval(1)
 			if pan != nil {
 				fail("panic", fmt.Sprint(pan))
